@@ -199,7 +199,7 @@ def _feasible_float(A, b, x, tol=1e-7):
         return f"negative component {min(x)}"
     for i, row in enumerate(A):
         lhs = math.fsum(a * v for a, v in zip(row, x))
-        if lhs > b[i] + tol * (1 + abs(b[i])):
+        if lhs > b[i] + tol * (1 + abs(b[i]) + math.fsum(abs(a * v) for a, v in zip(row, x))):
             return f"row {i} violated: {lhs} > {b[i]}"
     return None
 
@@ -303,17 +303,27 @@ def _work_small_n(case):
 
 # =============================================================================== M: magnitudes (small LPs, enumeration oracle + Coq)
 def gen_scaled(rng):
+    """small LP with its rows / objective / right-hand sides moved to other magnitudes: per-row factors 2^k (k up to 31, also negative
+    powers), mixed scales inside one LP, decimal factors 10^k, huge right-hand sides.  The exact verdict is computed on the scaled data."""
     M = _M()
     base = M.gen_lp(rng) if rng.random() < 0.6 else M.gen_lp_inexact(rng)
     A = [list(r) for r in base["A"]]; b = list(base["b"]); c = list(base["c"])
-    how = rng.choice(["rows", "all", "obj", "rhs", "huge-rhs", "mixed"])
+    how = rng.choice(["rows", "rows", "all", "obj", "rhs", "huge-rhs", "mixed", "mixed", "one-row", "decimal-rows"])
     if how in ("rows", "mixed"):
         for i in range(len(A)):
-            k = rng.randint(-6, 20)
+            k = rng.choice([rng.randint(-10, 31), rng.randint(14, 31), 0])
             f = Fraction(2) ** k
             A[i] = [float(a * f) for a in A[i]]; b[i] = float(b[i] * f)
+    if how == "one-row":
+        i = rng.randrange(len(A))
+        f = rng.choice([2 ** 31, 2 ** 20, 10 ** 9, 2 ** 17, 3 * 2 ** 18])
+        A[i] = [a * f for a in A[i]]; b[i] = b[i] * f
+    if how == "decimal-rows":
+        for i in range(len(A)):
+            f = 10 ** rng.randint(0, 9)
+            A[i] = [a * f for a in A[i]]; b[i] = b[i] * f
     if how == "all":
-        f = Fraction(2) ** rng.randint(-6, 24)
+        f = Fraction(2) ** rng.randint(-10, 31)
         A = [[float(a * f) for a in r] for r in A]; b = [float(v * f) for v in b]
     if how in ("obj", "mixed"):
         f = rng.choice([2 ** rng.randint(-6, 31), 10 ** rng.randint(1, 9)])
@@ -324,6 +334,9 @@ def gen_scaled(rng):
     if how == "huge-rhs":
         big = rng.choice([2 ** 31, 10 ** 9, 2 ** 44 + 1, 2 ** 31 - 1, 10 ** 6 + 1])
         b = [(big if v > 0 else (-big if v < 0 else 0)) + v for v in b]
+    for i in range(len(A)):      # stay below the library's own "large coefficient" warning threshold (1e10)
+        while max([abs(a) for a in A[i]] + [0]) > 9e9:
+            A[i] = [a / 16 for a in A[i]]; b[i] = b[i] / 16
     return {"c": c, "A": A, "b": b, "minimize": base["minimize"], "max_iter": None, "family": "scaled-" + how}
 
 
@@ -334,6 +347,11 @@ MAGNITUDE_FIXED = [
     {"c": [0], "A": [[-9437184.0]], "b": [-7340032.0], "minimize": True},
     {"c": [1], "A": [[-5000000]], "b": [-1000000], "minimize": True},
     {"c": [1, 1], "A": [[-300000, -700000], [1, 0]], "b": [-1100000, 2], "minimize": True},
+    # rows of magnitude 2^17..2^31 next to unit rows: wrong points / verdicts before commit 96ecc58 (row equilibration)
+    {"c": [-2, 1], "A": [[1179648.0, 917504.0], [-1179648.0, -917504.0]], "b": [1835008.0, -1835008.0], "minimize": True},
+    {"c": [128.0, -128.0], "A": [[14.0, -20.0], [-7340032.0, 10485760.0]], "b": [0.0, 0.0], "minimize": False},
+    {"c": [0, 3, 2, 3], "A": [[0, 0, -5, -8], [-5, -2, 0, 0], [1, 0, 0, 0], [0, 1, 0, 0], [0, 0, 2147483648, 0], [0, 0, 0, 1]],
+     "b": [-17, -19, 5, 5, 4294967296, 4], "minimize": True},
     # objective cell vs c.x of the returned point (commit 0767acf)
     {"c": [5, 87960930222079, 5], "A": [[0, 1, 0], [1, 0, 0], [0, -6, -3]], "b": [1, 1, -8], "minimize": True},
 ]
@@ -341,7 +359,7 @@ MAGNITUDE_FIXED = [
 
 def gen_magnitude_rows(rng):
     """a*s x >= b*s style rows (need phase 1) at scale s = 10^4 .. 10^7, one or two rows, optional bound"""
-    s = 10 ** rng.randint(4, 7)
+    s = rng.choice([10 ** rng.randint(4, 8), 2 ** rng.randint(14, 28)])
     n = rng.choice([1, 1, 2])
     A = [[-rng.randint(1, 19) * s for _ in range(n)]]
     b = [-rng.randint(1, 19) * s]
@@ -756,7 +774,7 @@ def run_hard(ctx):
     lap("tall")
     # ------------------------------------------------------------------ small-size families through oracle + Coq
     std = [gen_wide(ctx.rng, cols) for cols in ([17] * 5 + [33] * 4 + [65] * 3 + [129] * 2 + [257]) * (3 if thorough else 1)]
-    std += [gen_scaled(ctx.rng) for _ in range(ctx.budget(80, 1200))]
+    std += [gen_scaled(ctx.rng) for _ in range(ctx.budget(140, 2500))]
     std += [{**k, "max_iter": None, "family": "magnitude-fixed"} for k in MAGNITUDE_FIXED]
     std += [gen_magnitude_rows(ctx.rng) for _ in range(ctx.budget(40, 400))]
     std += [gen_decimal(ctx.rng) for _ in range(ctx.budget(60, 800))]
@@ -833,7 +851,8 @@ def run_hard(ctx):
     # magnitudes > 1e4: the float round-off is no longer small against the ABSOLUTE eps of the code (and of the certificate checker's
     # tolerance): only the public result (status, objective within relative 1e-7) is compared with the model; the oracle judges as always
     big_items = groups.get(("big", None), [])
-    failing = ctx.coq_check("hmag", M.IMPORTS, "lp_case", "corr_public_check eps_default tol7", [M.coq_case(c, o) for c, o, _ in big_items], shard=40)
+    # (since the code equilibrates its rows - commit 96ecc58 - the pivot trace is comparable again: full correspondence)
+    failing = ctx.coq_check("hmag", M.IMPORTS, "lp_case", "corr_robust_check eps_default tol7", [M.coq_case(c, o) for c, o, _ in big_items], shard=40)
     unexplained += [("corr", big_items[i]) for i in failing]
     # mid-size: model + proved certificate checker are the only judges of optimality besides the verified dual point
     mid_items = groups.get(("mid", None), [])
